@@ -6,8 +6,9 @@
      ip_ex5_wf / ip_ex5_run                  the same with Joliet, UDF (File Entry linked twice), Rock Ridge
      inplace_zero_padding_refuted            "new bytes, then zeros up to the end of the sector" is FALSE: the
                                              old bytes between the new end and the last byte of the sector stay
-     inplace_refused_writes_nothing_refuted  with a negative length the call raises AFTER it has written a zero
-                                             byte at absolute offset 4 of the image (inside the system area)
+     inplace_refused_writes_nothing_refuted  BEFORE /repo 0411073: with a negative length the call raised AFTER it
+                                             had written a zero byte at absolute offset 4 of the image (inside the
+                                             system area); now refused up front (ip_exn_run, inplace_negative_refused)
      ip_short_fp_example                     an fp holding fewer bytes than `length`: the zero byte lands early
    All closed under the global context (Print Assumptions at the end). *)
 From Coq Require Import ZArith List Bool Lia.
@@ -73,17 +74,22 @@ Qed.
 Example ip_exn_wf : wf_state exn_st exn_m = true.
 Proof. vm_compute. reflexivity. Qed.
 
+(* the code BEFORE /repo commit 0411073 (no "length < 0" test): exn_logged are the writes that library issued *)
 Theorem inplace_refused_writes_nothing_refuted :
   exists st m len fp now ws,
     wf_state st m = true /\ length now = 17%nat /\ st_ino_len st = 0 /\ len = -5 /\
-    modify_run st len fp now = Partial ws /\ In (4, [0]) ws.
+    modify_run_before_0411073 st len fp now = Partial ws /\ In (4, [0]) ws.
 Proof.
   exists exn_st, exn_m, (-5), [], exn_now.
-  exists (match modify_run exn_st (-5) [] exn_now with Partial ws => ws | _ => [] end).
+  exists (match modify_run_before_0411073 exn_st (-5) [] exn_now with Partial ws => ws | _ => [] end).
   split; [exact ip_exn_wf|]. split; [reflexivity|]. split; [reflexivity|]. split; [reflexivity|].
   split; [vm_compute; reflexivity|]. vm_compute. right. left. reflexivity.
 Qed.
-Example ip_exn_run : outcome_ok (modify_run exn_st (-5) exn_fp exn_now) 2 (expand_writes exn_logged) = true.
+Example ip_exn_run_before :
+  outcome_ok (modify_run_before_0411073 exn_st (-5) exn_fp exn_now) 2 (expand_writes exn_logged) = true.
+Proof. vm_compute. reflexivity. Qed.
+(* the code as it is now *)
+Example ip_exn_run : modify_run exn_st (-5) exn_fp exn_now = Refused.
 Proof. vm_compute. reflexivity. Qed.
 
 (* ---- every namespace, File Entry linked twice ---- *)
